@@ -23,14 +23,16 @@
 //
 // Capture cases (real-capture decoding by the extracted Coq model):
 //
-//	K <id> <suite> <wC> <wS> <clientRandom> <serverRandom> <masterSecret> <recsC2S> <recsS2C>
+//	K <id> <suite> <wC> <wS> <clientRandom> <serverRandom> <masterSecret> <recsC2S> <recsS2C> <hsC2S> <hsS2C>
 //
 // are PRODUCED by gen: a connection is established with Config.KeyLogWriter set and a seeded deterministic
 // Config.Rand on both sides; the client Writes wC (sizes), the server reads them and Writes wS, the client reads
 // them.  The line records what was on the wire: the randoms of ClientHello / ServerHello, the master secret from
 // the key log, and per direction every record after ChangeCipherSpec (the Finished record, then the application
-// data records), hex, comma separated.  Observation: <id> ok <bytes c2s> <bytes s2c> = the application bytes the
-// endpoints wrote and the peers read (the driver checks they are equal).  `run` on a K line performs a fresh
+// data records), hex, comma separated, and the handshake messages each side sent in the clear before its
+// ChangeCipherSpec (record payloads concatenated).  Observation: <id> ok <bytes c2s> <bytes s2c> 1 1 = the application
+// bytes the endpoints wrote and the peers read (the driver checks they are equal); 1 1 = both Handshake() calls
+// returned nil, i.e. each side accepted the other's Finished.  `run` on a K line performs a fresh
 // connection with the same writes and reports the same thing.  The model derives the key block from the master
 // secret and opens every record.
 //
@@ -802,7 +804,7 @@ func runCase(line string) string {
 		ctx.closeAll()
 		return f[1] + " " + res
 	}
-	if f[0] == "K" && len(f) == 10 {
+	if f[0] == "K" && len(f) == 12 {
 		ctx := &caseCtx{}
 		res, _ := hx.Guard(deadline, func() string {
 			id, e1 := strconv.Atoi(f[1])
@@ -872,6 +874,20 @@ func afterCCS(log []byte) [][]byte {
 		}
 	}
 	return nil
+}
+
+// clearHandshake concatenates the payloads of the handshake records that precede the ChangeCipherSpec
+func clearHandshake(log []byte) []byte {
+	var out []byte
+	for _, r := range parseRecords(log) {
+		if len(r) >= 1 && r[0] == 20 {
+			break
+		}
+		if len(r) >= 5 && r[0] == 22 {
+			out = append(out, r[5:]...)
+		}
+	}
+	return out
 }
 
 // helloRandom extracts the 32-byte random of the first handshake message (ClientHello / ServerHello)
@@ -989,9 +1005,10 @@ func capture(ctx *caseCtx, id int, suiteName string, wC, wS []int) (string, stri
 	}
 	recsC = append(recsC, rc...)
 	recsS = append(recsS, rs...)
-	line := fmt.Sprintf("K %d %s %s %s %s %s %s %s %s", id, suiteName, hx.Ints(wC), hx.Ints(wS),
-		hx.Hex(cr), hx.Hex(sr), kl[2], hexList(recsC), hexList(recsS))
-	return line, "ok " + hx.Hex(streamC) + " " + hx.Hex(streamS)
+	line := fmt.Sprintf("K %d %s %s %s %s %s %s %s %s %s %s", id, suiteName, hx.Ints(wC), hx.Ints(wS),
+		hx.Hex(cr), hx.Hex(sr), kl[2], hexList(recsC), hexList(recsS),
+		hx.Hex(clearHandshake(l.cli.raw.hsLog)), hx.Hex(clearHandshake(l.srv.raw.hsLog)))
+	return line, "ok " + hx.Hex(streamC) + " " + hx.Hex(streamS) + " 1 1"
 }
 
 // close cases of a tier: last record larger than the Read buffer, several shapes
@@ -1051,7 +1068,7 @@ func genCaptures(r *hx.Rng, tier string, firstID int) ([]string, []string) {
 		res, _ := hx.Guard(deadline, func() string { line, o = capture(ctx, id, suiteName, wC, wS); return o })
 		ctx.closeAll()
 		if line == "" {
-			line = fmt.Sprintf("K %d %s %s %s - - - - -", id, suiteName, hx.Ints(wC), hx.Ints(wS))
+			line = fmt.Sprintf("K %d %s %s %s - - - - - - -", id, suiteName, hx.Ints(wC), hx.Ints(wS))
 		}
 		lines = append(lines, line)
 		obs = append(obs, strconv.Itoa(id)+" "+res)
